@@ -131,6 +131,9 @@ pub fn run_oligo(c: &OFCase, work: &str, uid: &str) -> RunOut {
     let inp = write_input(work, uid, &c.recs, &c.container);
     let outp = format!("{}/out_{}.txt", work, uid);
     let _ = std::fs::remove_file(&outp);
+    if stale_case(&c.req()) {
+        plant_file(&outp, c.recs.len() * 400);
+    }
     let mut oc = OligoComputer::new(inp.clone(), outp.clone(), c.k);
     oc.set_threads(c.threads);
     oc.set_norm(c.norm);
